@@ -50,7 +50,8 @@ def log(*a):
 
 # ------------------------------------------------------------------ Coq
 def coq_build(clean=False):
-    if not os.path.exists(os.path.join(COQ, 'Makefile')) or clean:
+    mk, prj = os.path.join(COQ, 'Makefile'), os.path.join(COQ, '_CoqProject')
+    if not os.path.exists(mk) or clean or os.path.getmtime(prj) > os.path.getmtime(mk):
         rc, out = sh('coq_makefile -f _CoqProject -o Makefile', cwd=COQ, timeout=120)
         if rc != 0:
             return False, out
